@@ -685,6 +685,14 @@ fn gen_activation(r: &mut Rng, env: &Env, v: &View, provider: usize, prefer: Opt
             };
             ids.push(id);
         }
+        // a deal id repeated within the sector's list, not adjacent to its first occurrence
+        if prefer.is_none() && r.chance(1, 5) && fresh.len() >= 2 {
+            ids = vec![fresh[0], fresh[1], fresh[0]];
+            if r.chance(1, 2) { ids.swap(0, 1); ids[2] = ids[0]; }
+        } else if !clean && ids.len() >= 2 && r.chance(1, 6) {
+            let d = ids[0];
+            ids.push(d);
+        }
         let max_end = ids.iter().filter_map(|i| v.deals.get(i)).map(|d| d.end).max().unwrap_or(epoch + DUR_MIN);
         let expiry = max_end + if clean { *r.pick(&[0i64, 100]) } else { *r.pick(&[0i64, 0, 1, 100, 100, 1000, -1, -1000]) };
         let sector = *r.pick(&[1u64, 2, 3]);
